@@ -351,6 +351,43 @@ func Run(c *core.Ctx) {
 			}
 		}
 	}
+	// the pattern a handler is told it was registered with (OnRegister: what store handlers build resource ids
+	// from) is the pattern it is routed by - also when it was registered on a mux before that was mounted
+	for _, local := range []string{"item.$id", "*.item.$id", "$a.*.$id", "*.*.$id.x", "$id.*", "x.$id.*.$b", "*", "$id", "a.>", "*.$id.>"} {
+		for _, arrangement := range []int{0, 1, 2} {
+			var told []string
+			opt := res.OnRegister(func(_ *res.Service, p res.Pattern, _ res.Handler) { told = append(told, string(p)) })
+			want := ""
+			pv := core.Catch(func() {
+				svc := res.NewService("svc")
+				svc.SetLogger(nil)
+				switch arrangement {
+				case 0: // directly on the service
+					svc.Handle(local, opt)
+					want = "svc." + local
+				case 1: // on a mux that is mounted afterwards
+					m := res.NewMux("")
+					m.Handle(local, opt)
+					svc.Mount("sub", m)
+					want = "svc.sub." + local
+				default: // two levels, mounted bottom-up, the inner mux with a path of its own
+					inner, outer := res.NewMux("in"), res.NewMux("")
+					inner.Handle(local, opt)
+					outer.Mount("mid", inner)
+					svc.Mount("up", outer)
+					want = "svc.up.mid.in." + local
+				}
+			})
+			if pv != nil {
+				continue // (the registration itself is judged by the routing check)
+			}
+			if len(told) != 1 || told[0] != want {
+				c.Violate(core.Violation{Signature: map[string]string{"engine": "pattern", "kind": "onregister-pattern", "p": local}, Text: fmt.Sprintf("handler registered as %q (arrangement %d) was told its pattern is %q, it is routed by %q", local, arrangement, told, want), Replay: rec{"p": local, "arrangement": arrangement}})
+			} else {
+				nid++
+			}
+		}
+	}
 	bad := 0
 	core.CheckRecords(c, "TracePattern", "TracePattern.cfg", recs, nil, func(i int, r interface{}, inv string) {
 		m := r.(rec)
